@@ -28,7 +28,7 @@ add(
 
 add(
     "C05", "exploration",
-    "bounded-exhaustive (glob, path) enumeration + Hypothesis model-guided paths; sandwich oracle narrow <= matches() <= wide from an independent glob model",
+    "bounded-exhaustive (glob, path) enumeration + Hypothesis model-guided paths; sandwich oracle narrow <= matches() <= wide from an independent glob model; automaton language inclusion witnesses; coverage-guided stage (atheris) over 'glob NUL path' byte strings with the same oracle",
     "All globs up to length 5 (quick) / 6 (thorough) over {a . / * \\} are compiled by the real AnnotationsItem and evaluated on all ~56k paths up to "
     "length 6 over a 6-letter alphabet (2*10^8 real matches() calls in quick), judged by an independent tokenizer-based model; random longer "
     "globs over a larger alphabet (regex metacharacters, non-ASCII, newline) with paths derived from the glob; sampled pairs go through a real "
@@ -177,11 +177,15 @@ add(
 
 add(
     "C16", "fault_enumeration",
-    "complete (REUSE.toml key x TOML type) table + Hypothesis-generated / corrupted TOML and dep5 documents, odd file bytes and injected read faults, each through every sub-command in-process; crash = any exception leaving main()",
+    "complete (REUSE.toml key x TOML type) table + Hypothesis-generated / corrupted TOML and dep5 documents, odd file bytes and injected read faults, each through every sub-command in-process; crash = any exception leaving main(); plus a coverage-guided stage (atheris / libFuzzer) on the TOML loader, the dep5 loader + converter and the content reader / header functions, oracle inside the target",
     "All 6 x 19 (key, value shape) documents in a root and a nested REUSE.toml, ~250 generated or corrupted TOML and dep5 documents per shard, ~170 "
     "covered files / .license siblings / LICENSES texts / templates made of arbitrary or degenerate bytes per shard, with EACCES and vanishing-file faults "
     "injected through an open() wrapper, are each run through lint (three formats), lint-file, spdx, annotate, download and convert-dep5: no escaping "
-    "exception, exit status in {0,1,2}, exit 2 names the file, clearly wrong types => exit 2, unreadable files are reported while the others still are.",
+    "exception, exit status in {0,1,2}, exit 2 names the file, clearly wrong types => exit 2, unreadable files are reported while the others still are. "
+    "Entries are also removed right after os.walk listed them; project templates (used by annotate) and .gitmodules are made of odd bytes / token sequences; lint and spdx run "
+    "once more after a successful convert-dep5. The atheris stage (16 campaigns per target, half from an empty corpus, half from a few valid inputs, with a dictionary) "
+    "drives ReuseTOML.from_toml, ReuseDep5.from_file + toml_from_dep5 and reuse_info_of_file / find_and_replace_header in-process: only the exceptions the callers map to "
+    "diagnostics may leave them; a saved input is replayed through the plain target function.",
     "In-process driving (an escaping exception is what a user sees as a traceback); read faults are injected into the reading commands only; whether a borderline value shape is 'broken' is asserted only for unambiguous types.",
     "DESIGN.md §4 C16",
 )
